@@ -11,6 +11,9 @@ RULE = (
     "frames the transport refuses (4-byte error code -404, ciphertext cut short, flipped ciphertext byte, even msg_id, unknown "
     "auth_key_id), bad_msg_notification for a pending / answered / unknown id, rpc_result for an id never used, for an id already "
     "answered and for the first attempt of a retried request, empty and nested containers, a container whose middle item is undecodable, "
+    "gzip_packed with a valid header and complete data but a flipped CRC-32 trailer / flipped ISIZE / a wrong byte in the middle of the "
+    "deflate data (at top level around pong, an unhandled object or a container, and inside rpc_result for a pending or an unknown id; "
+    "what a standard gzip reader makes of each stream is checked by the harness with compress/gzip), "
     "every registered MTProto service constructor without a case of its own (incl. the key-exchange constructors and client-side "
     "constructors echoed back) and API update objects, plain, gzip-packed once or twice; bad_server_salt / new_session_created; the "
     "Warnings channel is nil, or buffered with capacity 1 / 1-3 / 64, drained at random moments or never; a handler accepting everything "
@@ -19,7 +22,8 @@ RULE = (
     "answer what is open, then a probe call of a new caller that must return its answer. The pinned schedules cover every service "
     "constructor one by one, an unbuffered Warnings channel without reader, two closes, close of a freshly keyed session. Each schedule "
     "batch runs in a child process: death of the process is observed by the supervisor and named after the message the receive loop was "
-    "working on; a stall is observed by the scheduler's watchdog with a goroutine dump. Direct oracles: process alive, no stall, probe "
+    "working on; a stall - blocked or spinning - is observed by the scheduler's watchdog with a goroutine dump that names the client function the receive "
+    "loop is in (after a stall the worker process is replaced). Direct oracles: process alive, no stall, probe "
     "completed, no plain frame and no second key exchange after a close. Each action's projection must equal the extracted step2's "
     "(incl. length of the Warnings channel, handler count, connection generation). Non-trivial = distinct schedule with a hostile message "
     "or a close in which a call completed.")
